@@ -1741,7 +1741,8 @@ def ac11_forward_provenance(model: Model, fc: FnCls, R: RuleResult) -> int:
         extra = []
         for s in others.get(o, []):
             src = ast.unparse(s.value)
-            if fc.name in FORWARD_SHORTCUTS and src.startswith(FORWARD_SHORTCUTS[fc.name]):
+            if fc.name in FORWARD_SHORTCUTS and (src.startswith(FORWARD_SHORTCUTS[fc.name]) or
+                                                 (isinstance(s.value, ast.Call) and ast.unparse(s.value.func).split(".")[-1] in ("new_zeros", "zeros_like"))):
                 continue
             extra.append(s)
         if not extra:
